@@ -60,6 +60,18 @@ def r0c(src):  # GOROOT/src/runtime/sema.go: sync.Mutex measures a waiter's star
     return src.replace(old, new), src.count(old), 1
 
 
+def r0e(src):  # GOROOT/src/runtime/runtime2.go: a goroutine waiting for a sync.Mutex/RWMutex is idle for the bubble clock
+    # synctest does not count a goroutine blocked on a mutex as durably blocked (the holder could be
+    # outside the bubble), so the bubble clock stops while anybody waits for a mutex whose holder
+    # sleeps, and a mutex deadlock inside the bubble freezes simulated time for good. Everything the
+    # harness runs is inside the bubble: with these three wait reasons idle, a holder that sleeps
+    # with the lock held wakes up on time and a deadlock is seen as exchanges that never finish
+    # while the clock runs.
+    old = "\twaitReasonSyncCondWait:          true,\n"
+    new = old + "\twaitReasonSyncMutexLock:         true,\n\twaitReasonSyncRWMutexRLock:      true,\n\twaitReasonSyncRWMutexLock:       true,\n"
+    return src.replace(old, new), src.count(old), 1
+
+
 R0D_TAIL = '''
 // verifSelSeq: see verifTimerRand (runtime/time.go overlay). Inside a synctest bubble the order in
 // which select polls its cases is a function of (sequence number, salt) owned by the harness;
@@ -178,6 +190,9 @@ REWRITES = [
     ("R8", "har/har.go", lock_yield("har")),
     ("R8", "martianhttp/martianhttp.go", lock_yield("martianhttp")),
     ("R8", "fifo/fifo_group.go", lock_yield("fifo")),
+    ("R8", "trafficshape/conn.go", lock_yield("trafficshape")),
+    ("R8", "trafficshape/handler.go", lock_yield("trafficshape")),
+    ("R8", "trafficshape/listener.go", lock_yield("trafficshape")),
 ]
 
 
@@ -226,7 +241,7 @@ def main():
         dst = os.path.join(outdir, "goroot__runtime__proc.go")
         open(dst, "w").write(new)
         replace[path] = dst
-        for rid, fname, fn in (("R0c", "sema.go", r0c), ("R0d", "select.go", r0d)):
+        for rid, fname, fn in (("R0c", "sema.go", r0c), ("R0d", "select.go", r0d), ("R0e", "runtime2.go", r0e)):
             path = os.path.join(goroot, "src", "runtime", fname)
             new, n, want = fn(open(path).read())
             if n != want:
